@@ -166,6 +166,8 @@ func (c fcfg) String() string {
 type fop struct {
 	Kind string // write reopen rename pause
 	Len  int
+	// Again: a write whose bytes equal those of the write before it (two events, both acknowledged, both stored)
+	Again bool
 }
 
 func (o fop) String() string {
@@ -344,6 +346,14 @@ func (r *frun) exec(op fop, rng *rt.Rand) {
 		recCtr++
 		st.RecID = fmt.Sprintf("r%d", recCtr)
 		st.Rec = frameToLen(st.RecID, op.Len, rng)
+		if op.Again {
+			for i := len(r.Steps) - 1; i >= 0; i-- {
+				if r.Steps[i].Op.Kind == "write" {
+					st.RecID, st.Rec = r.Steps[i].RecID, append([]byte(nil), r.Steps[i].Rec...)
+					break
+				}
+			}
+		}
 		ev := &eventlogger.Event{Type: "t", CreatedAt: time.Now(), Formatted: map[string][]byte{r.format(): st.Rec, "other": []byte("WRONG-FORMAT\n")}}
 		st.T0 = time.Now()
 		_, st.Err = r.Sink.Process(ctx, ev)
@@ -453,6 +463,10 @@ func genOps(r *rt.Rand, c fcfg, n int) []fop {
 				l = 8
 			}
 			ops = append(ops, fop{Kind: "write", Len: l})
+			if r.Intn(12) == 0 {
+				// the next event has the very same bytes (a heartbeat, a payload without a sequence number)
+				ops = append(ops, fop{Kind: "write", Len: l, Again: true})
+			}
 		case x < 82:
 			ops = append(ops, fop{Kind: "reopen"})
 		case x < 92:
